@@ -184,8 +184,9 @@ class SpectralNoiseFFT(SpectralNoise):
         shift : array_like
             The shift in the grid axes.
         '''
+        # The fields are stored with x as the fastest axis, so y has to be the first axis of the open mesh.
         S = [shift[i] * self.coords[i] for i in range(len(self.coords))]
-        S = np.add.reduce(np.ix_(*S))
+        S = sum(np.ix_(*S[::-1]))
 
         self.C *= np.exp(-1j * S.ravel())
 
@@ -296,11 +297,12 @@ class SpectralNoiseMultiscale(SpectralNoise):
         shift : array_like
             The shift in the grid axes.
         '''
+        # The fields are stored with x as the fastest axis, so y has to be the first axis of the open mesh.
         S_1 = [shift[i] * self.coords_1[i] for i in range(len(self.coords_1))]
-        S_1 = sum(np.ix_(*S_1))
+        S_1 = sum(np.ix_(*S_1[::-1]))
 
         S_2 = [shift[i] * self.coords_2[i] for i in range(len(self.coords_2))]
-        S_2 = sum(np.ix_(*S_2))
+        S_2 = sum(np.ix_(*S_2[::-1]))
 
         self.C_1 *= np.exp(-1j * S_1.ravel())
         self.C_2 *= np.exp(-1j * S_2.ravel())
